@@ -269,7 +269,11 @@ impl<T: AsRef<[u8]> + From<Vec<u8>>> FromStr for Oid<T> {
             return Err("second component for 0. and 1. must be less than 40");
         }
 
-        let mut res = vec![40 * first + second];
+        let mut res = vec![
+            (40 * first).checked_add(second).ok_or(
+                "second component too large"
+            )?
+        ];
         for item in components {
             res.push(from_str(item)?);
         }
